@@ -185,8 +185,9 @@ class H2Protocol:
         except (h2.exceptions.StreamClosedError, KeyError, h2.exceptions.ProtocolError):
             # Stream or connection has closed whilst waiting to send
             # data, not a problem - just force close it.
-            await self.stream_buffers[stream_id].close()
-            del self.stream_buffers[stream_id]
+            if stream_id in self.stream_buffers:
+                await self.stream_buffers[stream_id].close()
+                del self.stream_buffers[stream_id]
             self.priority.remove_stream(stream_id)
 
     async def handle(self, event: Event) -> None:
